@@ -59,7 +59,7 @@ FieldInjections(f) ==
     LET m == f.msgs[i]
         x == m.fields[j]
         set(y) == [f EXCEPT !.msgs[i].fields[j] = y]
-        scalar == x.type \notin {KMessage, KGroup, KEnum}
+        scalar == x.type \notin {0, KMessage, KGroup, KEnum}     \* (0: `type` omitted, the field is what type_name denotes)
     IN
     {Inj("field_number_zero", "field_number", set([x EXCEPT !.num = 0])),
      Inj("field_number_negative", "field_number", set([x EXCEPT !.num = -1])),
@@ -80,13 +80,15 @@ FieldInjections(f) ==
           ELSE {})
     \cup (IF x.label # 3 \/ x.type \in Unpackable THEN {Inj("packed_not_packable", "packed", set([x EXCEPT !.packed = "t"]))} ELSE {})
     \cup (IF scalar THEN {Inj("type_name_on_scalar", "strayname", set([x EXCEPT !.tname = "." \o MsgFullOf(f, i)]))} ELSE {})
-    \cup (IF x.type \in {KMessage, KGroup, KEnum}
+    \cup (IF x.type \in {0, KMessage, KGroup, KEnum}
           THEN {Inj("type_unresolvable", "unresolved", set([x EXCEPT !.tname = ".p.Missing"])),
                 Inj("type_unresolvable_relative", "unresolved", set([x EXCEPT !.tname = "Missing.Type"])),
                 Inj("type_name_malformed", "badref", set([x EXCEPT !.tname = ".p..M"])),
                 Inj("type_name_empty", "badref", set([x EXCEPT !.tname = ""]))}
           ELSE {})
     \cup (IF x.type = KMessage /\ f.enums # <<>> THEN {Inj("message_type_names_enum", "wrongkind", set([x EXCEPT !.tname = "." \o EnumFullOf(f, 1)]))} ELSE {})
+    \* `type` omitted and type_name denotes neither a message nor an enum
+    \cup (IF x.type = 0 THEN {Inj("untyped_names_field", "wrongkind", set([x EXCEPT !.tname = "." \o Join(MsgFullOf(f, i), x.name)]))} ELSE {})
     \cup (IF x.type = KEnum THEN {Inj("enum_type_names_message", "wrongkind", set([x EXCEPT !.tname = "." \o MsgFullOf(f, i)])),
                                   Inj("enum_type_names_field", "wrongkind", set([x EXCEPT !.tname = "." \o Join(MsgFullOf(f, i), x.name)]))} ELSE {})
     \cup (IF x.type = KEnum /\ x.label = 1 THEN {Inj("default_names_no_value", "default_enum", set([x EXCEPT !.hd = TRUE, !.def = "NO_SUCH_VALUE"]))} ELSE {})
